@@ -35,52 +35,28 @@ theorem C18_pipeline_invariant (P : Prog) (c0 c : Cfg) (h0 : Started c0) (hU : U
 
 /-- only one reader thread exists at a time -/
 theorem C18_one_reader_thread (P : Prog) (c0 c : Cfg) (h0 : Started c0) (hU : UserHandlers c0)
-    (hF : NoForge P c0) (hr : Reach P c0 c) : c.A.readers.length ≤ 1 := by
-  have := (inputInv_reach h0 hU hF hr).one_flight
-  unfold inFlight at this; omega
+    (hF : NoForge P c0) (hr : Reach P c0 c) : c.A.readers.length ≤ 1 :=
+  one_reader_of_inv (inputInv_reach h0 hU hF hr)
 
 /-- while a reader thread exists the subsystem is busy, a request is outstanding, and no earlier line is
 still waiting to be handed off -/
 theorem C18_reader_means_busy (P : Prog) (c0 c : Cfg) (h0 : Started c0) (hU : UserHandlers c0)
     (hF : NoForge P c0) (hr : Reach P c0 c) (hrd : c.A.readers ≠ []) :
-    c.A.processing = true ∧ c.A.inputStack ≠ [] ∧ irQueued c = 0 ∧ irCode c.code = 0 := by
-  have hi := inputInv_reach h0 hU hF hr
-  have h1 := hi.one_flight
-  have hl : 0 < c.A.readers.length := List.length_pos_iff.mpr hrd
-  unfold inFlight at h1
-  have hp := hi.flight_processing (by unfold inFlight; omega)
-  exact ⟨hp, hi.processing_iff.mp hp, by omega, by omega⟩
+    c.A.processing = true ∧ c.A.inputStack ≠ [] ∧ c.A.readers.length = 1 ∧ irQueued c = 0 ∧ irCode c.code = 0 :=
+  reader_busy_of_inv (inputInv_reach h0 hU hF hr) hrd
 
 /-- an idle subsystem has no reader thread, no outstanding request and no line in flight -/
 theorem C18_idle_means_quiet (P : Prog) (c0 c : Cfg) (h0 : Started c0) (hU : UserHandlers c0)
     (hF : NoForge P c0) (hr : Reach P c0 c) (hp : c.A.processing = false) :
-    c.A.readers = [] ∧ c.A.inputStack = [] ∧ irQueued c = 0 ∧ irCode c.code = 0 := by
-  have hi := inputInv_reach h0 hU hF hr
-  have h1 := hi.one_flight
-  have h0' : inFlight c = 0 := by
-    have := hi.flight_processing
-    rw [hp] at this
-    have h2 : inFlight c ≠ 1 := fun h => by cases this h
-    omega
-  unfold inFlight at h0'
-  refine ⟨List.length_eq_zero_iff.mp (by omega), ?_, by omega, by omega⟩
-  have := hi.processing_iff
-  rw [hp] at this
-  exact Decidable.byContradiction fun hne => by cases this.mpr hne
+    c.A.readers = [] ∧ c.A.inputStack = [] ∧ irQueued c = 0 ∧ irCode c.code = 0 :=
+  idle_quiet_of_inv (inputInv_reach h0 hU hF hr) hp
 
 /-- the hand-off never finds the request stack empty (no `IndexError` in
 `_input_received_handler`): whenever the thread manager's handler is about to run, a request is outstanding -/
 theorem C18_handoff_finds_request (P : Prog) (c0 c : Cfg) (h0 : Started c0) (hU : UserHandlers c0)
     (hF : NoForge P c0) (hr : Reach P c0 c) (s : Sig) (rest : List Instr)
-    (hc : c.code = .inputReceived s :: rest) : c.A.inputStack ≠ [] := by
-  have hi := inputInv_reach h0 hU hF hr
-  have h1 := hi.one_flight
-  apply hi.processing_iff.mp
-  apply hi.flight_processing
-  unfold inFlight at h1 ⊢
-  rw [hc] at h1 ⊢
-  simp [irCode, Instr.irPending] at h1 ⊢
-  omega
+    (hc : c.code = .inputReceived s :: rest) : c.A.inputStack ≠ [] :=
+  handoff_finds_request_of_inv (inputInv_reach h0 hU hF hr) s rest hc
 
 /-- (for every program, no hypothesis) busy exactly while requests are outstanding -/
 theorem C18_busy_iff_outstanding (P : Prog) (c0 c : Cfg) (h0 : Started c0) (hr : Reach P c0 c) :
@@ -129,10 +105,8 @@ theorem C18_refuse_leaves_no_trace (c : Cfg) (ih : Nat) (requester : Src) (text 
     (final (startRequest c ih requester text)).A.inputStack = c.A.inputStack ∧
     (final (startRequest c ih requester text)).A.out = c.A.out ∧
     (final (startRequest c ih requester text)).A.readers = c.A.readers ∧
-    (final (startRequest c ih requester text)).A.processing = c.A.processing := by
-  rw [startRequest_refuse c ih requester text hs hk]
-  simp only [raise_A]
-  exact ⟨rfl, rfl, rfl, rfl⟩
+    (final (startRequest c ih requester text)).A.processing = c.A.processing :=
+  refuse_no_trace c ih requester text hs hk
 
 /-- **Acceptance and the one reader.** With no request outstanding, or with the check bypassed, the request
 is not refused: it is pushed on the stack (newest last), its prompt is printed, the subsystem is busy, and
@@ -152,16 +126,8 @@ theorem C18_accept (c : Cfg) (ih : Nat) (requester : Src) (text : Str)
 theorem C18_refuse_iff (c : Cfg) (ih : Nat) (requester : Src) (text : Str) :
     (∃ c', startRequest c ih requester text = .ok c') ↔
       (c.A.inputStack = [] ∨ (c.A.ihs.getD ih default).skip = true) ∨
-      ∃ c', ({ c with A := reqRecorded c.A ih requester text } : Cfg).raise .err = .ok c' := by
-  by_cases h : c.A.inputStack = [] ∨ (c.A.ihs.getD ih default).skip = true
-  · exact ⟨fun _ => Or.inl h, fun _ => ⟨_, startRequest_accept c ih requester text h⟩⟩
-  · have h' : c.A.inputStack ≠ [] ∧ (c.A.ihs.getD ih default).skip = false := by
-      refine ⟨fun e => h (Or.inl e), ?_⟩
-      cases hk : (c.A.ihs.getD ih default).skip
-      · rfl
-      · exact absurd (Or.inr hk) h
-    rw [startRequest_refuse c ih requester text h'.1 h'.2]
-    exact ⟨fun h1 => Or.inr h1, fun h1 => h1.resolve_left h⟩
+      ∃ c', ({ c with A := reqRecorded c.A ih requester text } : Cfg).raise .err = .ok c' :=
+  startRequest_ok_iff c ih requester text
 
 /-- A screen asking for input (`getInput2`, after a prompt that is not `None`) and a blocking request
 (`blockingInput`, i.e. `get_user_input`/the pager's “press ENTER”) both create a fresh `InputHandler`
@@ -170,15 +136,13 @@ for it: the outcome is described by `Requested`. -/
 theorem C18_screen_request (P : Prog) (c : Cfg) (scr : Nat) (args : Option Nat) (rest : List Instr)
     (hc : c.code = .getInput2 scr args :: rest) (hp : c.retPromptNone = false) :
     Requested c (final (step P c)) (freshIH (.scr scr) (P.spec scr).skipCheck (some scr))
-      (promptText P defaultPrompt) := by
-  rw [step_getInput2_some P c scr args rest hc hp]
-  exact Requested_congr (requested_of_newIH _ _ _ _ _ _) rfl rfl rfl rfl rfl rfl rfl rfl rfl
+      (promptText P defaultPrompt) :=
+  screen_request P c scr args rest hc hp
 
 theorem C18_blocking_request (P : Prog) (c : Cfg) (scr : Nat) (cont : Bool) (rest : List Instr)
     (hc : c.code = .blockingInput scr cont :: rest) :
-    Requested c (final (step P c)) (freshIH (.im scr) (P.spec scr).skipCheck none) (blockingText P cont) := by
-  rw [step_blockingInput P c scr cont rest hc]
-  exact Requested_congr (requested_of_newIH _ _ _ _ _ _) rfl rfl rfl rfl rfl rfl rfl rfl rfl
+    Requested c (final (step P c)) (freshIH (.im scr) (P.spec scr).skipCheck none) (blockingText P cont) :=
+  blocking_request P c scr cont rest hc
 
 /-! ### 4. the hand-off -/
 
@@ -233,10 +197,8 @@ theorem C18_idle_after_handoff (P : Prog) (c : Cfg) (s : Sig) (rest : List Instr
     (ih : Nat) (requester : Src) (text : Str) :
     ∃ c' c'', step P c = .ok c' ∧ startRequest c' ih requester text = .ok c'' ∧
       c''.A.inputStack = [c'.A.reqs.length] ∧ c''.A.readers = c'.A.readers ++ [c'.A.reqs.length] ∧
-      c''.A.processing = true := by
-  obtain ⟨c', h1, _, _, h4, _⟩ := handoff_history P c s rest rs r hc hst
-  obtain ⟨c'', h5, h6, _, _, h7, h8, _⟩ := C18_accept c' ih requester text (Or.inl (by rw [h4]))
-  refine ⟨c', c'', h1, h5, by rw [h6, h4]; rfl, by rw [h8, h4]; rfl, h7⟩
+      c''.A.processing = true :=
+  idle_after_handoff P c s rest rs r hc hst ih requester text
 
 /-! ### 5. the handler's result -/
 
@@ -270,12 +232,8 @@ theorem C18_handler_result (P : Prog) (c : Cfg) (n : Nat) (s : Sig) (rest : List
 /-- the one-shot callback of an existing handler is never armed again, by any transition of any
 configuration: once used (or absent) it stays `none` -/
 theorem C18_callback_one_shot (P : Prog) (c c' : Cfg) (ht : Trans P c c') (n : Nat) (hn : n < c.A.ihs.length)
-    (scr : Nat) (h1 : (c'.A.ihs.getD n default).cb = some scr) : (c.A.ihs.getD n default).cb = some scr := by
-  refine cb_never_rearmed ?_ n hn scr h1
-  cases ht with
-  | step h => have := step_inpTrans P c; rwa [h] at this
-  | deliver h => exact .frame (InpFrame_deliver (Same_refl c) h)
-  | halt h => have := step_inpTrans P c; rwa [h] at this
+    (scr : Nat) (h1 : (c'.A.ihs.getD n default).cb = some scr) : (c.A.ihs.getD n default).cb = some scr :=
+  cb_never_rearmed (trans_inpTrans ht) n hn scr h1
 
 /-- a handler that has not received a result holds no value (`get_input` clears both) -/
 theorem C18_no_value_before_result (P : Prog) (c0 c : Cfg) (h0 : Started c0) (hr : Reach P c0 c) (n : Nat)
@@ -297,17 +255,8 @@ theorem C18_wait_step (P : Prog) (c : Cfg) (ih : Nat) (rest : List Instr) (hc : 
 /-- the instruction after the wait is reached by the wait's own step only when the result is there -/
 theorem C18_wait_returns_iff_received (P : Prog) (c c' : Cfg) (ih : Nat) (rest : List Instr)
     (hc : c.code = .waitInput ih :: rest) (hst : step P c = .ok c') :
-    c'.code = rest ↔ (c.A.ihs.getD ih default).received = true := by
-  rw [step_waitInput P c ih rest hc] at hst
-  split at hst
-  · cases hst; exact ⟨fun _ => ‹_›, fun _ => rfl⟩
-  · split at hst
-    · cases hst
-    · cases hst
-      refine ⟨fun h => ?_, fun h => absurd h ‹_›⟩
-      have := congrArg List.length h
-      simp at this
-      omega
+    c'.code = rest ↔ (c.A.ihs.getD ih default).received = true :=
+  wait_returns_iff P c c' ih rest hc hst
 
 /-- **Only the handler's own answer sets `received`.** In any transition (step, delivery, halting step) of any
 configuration, if handler `n` had not received a result before and has one afterwards, the transition was the
@@ -320,12 +269,8 @@ theorem C18_received_only_by_own_signal (P : Prog) (c c' : Cfg) (ht : Trans P c 
     ∃ s rest, c.code = .inputReady n s :: rest ∧ s.ih = n ∧ n < c.A.ihs.length ∧
       (c'.A.ihs.getD n default).ok = s.ok ∧
       (s.ok = true → (c'.A.ihs.getD n default).value = some s.line) ∧
-      (s.ok = false → (c'.A.ihs.getD n default).value = (c.A.ihs.getD n default).value) := by
-  refine received_set_only_by_own_signal ?_ n hb ha
-  cases ht with
-  | step h => have := step_inpTrans P c; rwa [h] at this
-  | deliver h => exact .frame (InpFrame_deliver (Same_refl c) h)
-  | halt h => have := step_inpTrans P c; rwa [h] at this
+      (s.ok = false → (c'.A.ihs.getD n default).value = (c.A.ihs.getD n default).value) :=
+  received_set_only_by_own_signal (trans_inpTrans ht) n hb ha
 
 /-! ### non-vacuity, and the hypotheses are needed -/
 
@@ -382,5 +327,25 @@ theorem C18_one_reader_needs_UserHandlers :
     ∃ c, Started C18_regC ∧ C18_regC.NoForge ∧ Reach C18_forgeP C18_regC c ∧ c.A.readers.length = 2 :=
   ⟨(runFuel C18_forgeP 60 C18_regC).1, ⟨_, _, _, _, rfl⟩, by decide, reach_runFuel _ _ _ _ .init,
     by decide +kernel⟩
+
+/-- **Busy does not mean that a line is in flight** (so the invariant `flight_processing` has no converse): after
+`force_quit` the loop drops every enqueue; a reader that delivers then loses its line — the subsystem stays busy,
+the request stays on the stack, and nothing is in flight any more. -/
+def C18_fqP : Prog :=
+  { cc := asciiClass, screens := [{ name := ['A'] }],
+    handlerScript := fun hid n => if hid = 0 ∧ n = 0 then [.forceQuit] else [] }
+def C18_fqC : Cfg :=
+  initCfg [.schedule 0 none, .enq (.user 0) 0 .none 5] [(.user 0, .user 0, none)] none ["x".toList]
+
+theorem C18_busy_without_line_in_flight :
+    ∃ c, Reach C18_fqP C18_fqC c ∧ UserHandlers C18_fqC ∧ C18_fqC.NoForge ∧
+      c.A.processing = true ∧ c.A.inputStack = [0] ∧ inFlight c = 0 ∧ readLines c.log = ["x".toList] := by
+  have h : ((runFuel C18_fqP 400 C18_fqC).1.deliver).isSome = true := by decide +kernel
+  obtain ⟨c, hc⟩ := Option.isSome_iff_exists.mp h
+  refine ⟨c, .deliver (reach_runFuel _ _ _ _ .init) hc, by decide, by decide, ?_⟩
+  have : ∀ c', (runFuel C18_fqP 400 C18_fqC).1.deliver = some c' →
+      c'.A.processing = true ∧ c'.A.inputStack = [0] ∧ inFlight c' = 0 ∧ readLines c'.log = ["x".toList] := by
+    decide +kernel
+  exact this c hc
 
 end Simpleline
